@@ -6,6 +6,7 @@ package c01
 
 import (
 	"bytes"
+	"net"
 	"encoding/base64"
 	"crypto/tls"
 	"crypto/x509"
@@ -556,13 +557,14 @@ func scenario(x *explore.X, product bool, ncfg int) {
 		leaf := pki.Leaf([]string{originHost}, -time.Hour, time.Hour)
 		nh.TLS = &tls.Config{Certificates: []tls.Certificate{leaf}}
 	}
+	// the client's address family: what is appended to X-Forwarded-For is the address, in its usual text form
+	w.V6Clients = x.Choose("client-address-family", 2) == 1
 	raw, err := w.Client()
 	if err != nil {
 		x.Failf("harness/client", "%v", err)
 		return
 	}
-	e.clientIP = raw.C.LocalAddr().String()
-	e.clientIP = e.clientIP[:strings.LastIndex(e.clientIP, ":")]
+	e.clientIP = raw.C.LocalAddr().(*net.TCPAddr).IP.String() // (the address as such: no port, no brackets)
 	var cl world.Stream = raw
 	if e.mitm {
 		raw.Send([]byte("CONNECT " + originHost + ":443 HTTP/1.1\r\nHost: " + originHost + ":443\r\n\r\n"))
@@ -688,8 +690,7 @@ func twoUploads(x *explore.X) {
 			x.Failf("two-uploads/message", "upload %s (framing-a=%s framing-b=%s via upstream=%v): next hop holds %d complete requests (state %q, %s)", who, fa, fb, viaUp, len(st.Msgs), st.State, st.Err)
 			return
 		}
-		e.clientIP = cl.C.LocalAddr().String()
-		e.clientIP = e.clientIP[:strings.LastIndex(e.clientIP, ":")]
+		e.clientIP = cl.C.LocalAddr().(*net.TCPAddr).IP.String()
 		expectForwarded(x, e, r, st.Msgs[0])
 	}
 	x.Check()
@@ -820,8 +821,7 @@ func afterRefused(x *explore.X) {
 	case len(seen) > 1:
 		x.Failf("after-refused/extra-request", "%s: the next hop received %d requests, the client sent one that may be forwarded; first: %q", what, len(seen), world.Clip(seen[0].Raw))
 	default:
-		e.clientIP = cl.C.LocalAddr().String()
-		e.clientIP = e.clientIP[:strings.LastIndex(e.clientIP, ":")]
+		e.clientIP = cl.C.LocalAddr().(*net.TCPAddr).IP.String()
 		expectForwarded(x, e, r2, seen[0])
 		x.Outcome(kind + "/second-forwarded")
 	}
